@@ -2741,6 +2741,12 @@ impl<T: Storage> Raft<T> {
             // proposals but it's better than nothing.
             //
             // TODO(tbg): test this branch. It is untested at the time of writing.
+            //
+            // Step down: a leader outside the voters would otherwise keep its
+            // followers' election timers reset while it can no longer be counted
+            // on to commit anything, and nobody would ever campaign.
+            let term = self.term;
+            self.become_follower(term, INVALID_ID);
             return cs;
         }
 
